@@ -79,8 +79,8 @@ CHECKS = {
    "Every subset of a 7-node universe that realises each relation the ordering and the same-IP rule inspect, in every insertion order, for several targets and table ids, plus 21-24 node sets under rotations/transpositions for the K cut and the parameter grid of take_until_secure; exhaustive inside those bounds.",
    "Security of ids is decided by the harness' independent BEP42/CRC32C reference.", "DESIGN.md section 6, C11"),
   "C16": ("E3-enumeration", "exploration",
-   "bounded-exhaustive enumeration of response streams fed through the real handle's channel, against a max-fold reference",
-   "Every stream of up to 5 (quick) / 7 (thorough) items over an 8-item alphabet covering gaps, duplicates and ties is delivered to the real sync and async functions by a harness-played actor; exhaustive within that bound.",
+   "bounded-exhaustive enumeration of response streams fed through the real handle's channel, and of replica version assignments x arrival orders on a real node over the simulated network, against a max-fold reference",
+   "Every stream of up to 5 (quick) / 7 (thorough) items over an 8-item alphabet covering gaps, duplicates and ties is delivered to the real sync and async functions by a harness-played actor; in addition a real node looks the key up over 3 scripted replicas under every assignment of 5 versions and every arrival order; exhaustive within those bounds.",
    "Trusts flume FIFO order; authenticity of delivered items is C02's concern.", "DESIGN.md section 6, C16"),
  "C19": ("E3-enumeration", "exploration",
    "bounded-exhaustive input enumeration against an independent reference (model-checking family: every input shape up to a bound)",
